@@ -6,13 +6,14 @@ PROP = {'suites': ['c16'],
              5: "a ping/push notification was not addressed to the initiating client's endpoint with that request's client_notification_token",
              6: "an auth_req_id yielded tokens (poll or push delivery) after a terminal answer of the embedder's validation, or a failure notification delivered to a push client, had ended it",
              7: 'an auth_req_id yielded tokens (poll or push delivery) after its lifetime, counted from /bc-authorize, had elapsed',
-             8: 'a request that had only received retryable answers (authorization_pending, slow_down) was no longer usable: the approving poll of the initiating client before expiry was refused'},
+             8: 'a request that had only received retryable answers (authorization_pending, slow_down) was no longer usable: the approving poll of the initiating client before expiry was refused',
+             9: 'reporting a denial through the provider API delivered tokens'},
  'title': 'CIBA hands tokens once, to the initiating client, only after approval',
  'text': 'Theorems over the model: ciba_poll_bound (tokens only to the initiating client, unexpired, approved in this very request, never to a push client; session deleted), ciba_once (over ALL '
          'histories an auth_req_id yields tokens at most once, polling and push delivery together), ciba_pending_keeps, ciba_terminal_ends, ciba_notify_addressing, ciba_push_before_expiry. '
          'Correspondence: CIBA histories over poll/ping/push clients, scripted decisions, foreign pollers, ticks, notifications recorded by an in-process endpoint; deterministic scenarios '
          '(scenarioCibaDenialEnds): per delivery mode, denial first (failure notification / validation deny / validation fail / success), then every way of obtaining tokens for the same auth_req_id. '
-         'Deterministic scenario scenarioCibaLifetime: per poll / ping client, runs of pending and slow_down polls, then approval before and after the lifetime (clauses 7, 8).',
+         'Deterministic scenario scenarioCibaLifetime: per poll / ping client, runs of pending and slow_down polls, then approval before and after the lifetime (clauses 7, 8). ',
  'note': 'Theorems are about the hand-written model (coq/Model); the model is tied to the Go code by the correspondence runs only as far as the generators reach (counts in the evidence). Crypto, '
          'parsers and the clock are modelled (DESIGN.md section 8). ciba_once assumes the embedder calls the Notify API with non-empty ids (wf_op). Only login_hint is sent as hint; signed request '
          'objects at /bc-authorize are covered by C07.',
